@@ -118,6 +118,14 @@ theorem hadCheck_idlAll (m : M) (h : IdlAll P m.1) : IdlAll P (hadCheck m).1 := 
   · simp only [onSt_fst]; exact stop_idlAll _ _ (checkCompletion_idlAll _ h)
   · exact hadReady_idlAll _ (checkCompletion_idlAll _ h)
 
+theorem hadFresh_idlAll (m : M) (h : IdlAll P m.1) : IdlAll P (hadFresh m).1 := by
+  unfold hadFresh
+  dsimp only
+  have h0 : IdlAll P (hadFreshInstall m).1 := h.of_eq (by simp)
+  split
+  · simp only [onSt_fst]; exact stop_idlAll _ _ (h0.of_eq (by simp))
+  · exact hadCheck_idlAll _ h0
+
 theorem handleAllocationDone_idlAll (m : M) (ex mi : Bool) (h : IdlAll P m.1) :
     IdlAll P (handleAllocationDone m ex mi).1 := by
   rw [handleAllocationDone_eq]
@@ -126,6 +134,7 @@ theorem handleAllocationDone_idlAll (m : M) (ex mi : Bool) (h : IdlAll P m.1) :
   repeat' split
   all_goals first
     | exact hadCheck_idlAll _ (h0.of_eq (by simp))
+    | exact hadFresh_idlAll _ h0
     | exact h0.of_eq (by simp)
 
 theorem allocatorRun_idlAll (m : M) (h : IdlAll P m.1) : IdlAll P (allocatorRun m).1 := by
